@@ -1,5 +1,6 @@
 SPECIFICATION Spec
 CONSTANTS
   RestoreOnWaitQuit <- TRestore
+  ClearOnDisconnect <- TRestore
 POSTCONDITION Accepted
 CHECK_DEADLOCK FALSE
